@@ -152,7 +152,10 @@ UNITS['dfvc'] = unit_dfvc
 
 def unit_l2(tier, seed):
     import unit_l2
-    return run_verus_unit('l2', None, builder=unit_l2.build, canary=False)
+    # vacuity canaries (every contracted function re-emitted with `ensures false`, which must fail) double the run:
+    # thorough tier only; the quick tier relies on the per-leaf reachability covers of units l0bits/l1int and on the canaries of
+    # the smaller units
+    return run_verus_unit('l2', None, builder=unit_l2.build, canary=(tier == 'thorough'))
 
 
 UNITS['l2'] = unit_l2
@@ -226,7 +229,7 @@ PROPERTY_UNITS['C15'] = ['l2', 'l1int', 'l0bits']
 PROPERTY_UNITS['C14'] = ['msgl3', 'frame']
 PROPERTY_UNITS['C12'] = ['msgl3', 'l0bits']
 PROPERTY_UNITS['C09'] = ['msgl3', 'l2', 'l1int', 'l1enc', 'bs_msgs', 'l0bits']
-PROPERTY_UNITS['C16'] = ['l2', 'bs_bias', 'bs_msgs', 'l0bits']
+PROPERTY_UNITS['C16'] = ['l2', 'dfvc', 'bs_bias', 'bs_msgs', 'l0bits']
 PROPERTY_UNITS['C01'] = ['msgl3', 'frame', 'l2', 'dfvc', 'l1int', 'text', 'bs_msgs', 'bs_msmrows', 'bs_bias', 'l0bits']
 PROPERTY_UNITS['C19'] = ['features', 'msgl3']
 PROPERTY_UNITS['C17'] = ['text', 'bs_text', 'l2', 'l0bits']
